@@ -41,10 +41,20 @@ CheckIin(L, x, l) ==
        ELSE IF L10.bc.set THEN [L10 EXCEPT !.bc.reported = TRUE]
        ELSE L10
 
+\* The reply to DISABLE_UNSOLICITED is sent at the moment the unsolicited series is cancelled:
+\* whether its events still count as "awaiting confirmation" in that one reply is not determined
+\* by the property, so the class bits are accepted either way there.
+ClassBitsOk(L, x) == /\ x.iin.c1 = ClassBit(L, 1, x.t) /\ x.iin.c2 = ClassBit(L, 2, x.t)
+                     /\ x.iin.c3 = ClassBit(L, 3, x.t)
+
 TxStep(acc, x, e, l) ==
     LET exempt == IsUnsolRetry(acc, x) \/ (~x.uns /\ acc.repeat)
         after  == ApplyTx(acc, x, e, l)
-    IN IF exempt \/ x.fc \notin {129, 130} THEN after ELSE CheckIin(after, x, l)
+        alt    == [after EXCEPT !.uns.active = acc.uns.active]
+    IN IF exempt \/ x.fc \notin {129, 130} THEN after
+       ELSE IF EndsUnsolWait(acc, e, x) /\ ~ClassBitsOk(after, x) /\ ClassBitsOk(alt, x)
+         THEN [CheckIin(alt, x, l) EXCEPT !.uns.active = FALSE]
+       ELSE CheckIin(after, x, l)
 
 MonStep(m, e, l) ==
     IF e.k = "reset" THEN LInit(e.cfg, e.id, m.viol)
